@@ -9,11 +9,11 @@ import (
 
 // Size bounds of generated programs.
 const (
-	MaxNodes = 40 // page 16 + 3 components x 8
+	MaxNodes = 40 // budget: page 13 + 3 components x 7, plus a small overshoot
 	MaxDepth = 4
 
-	pageBudget = 16
-	compBudget = 8
+	pageBudget = 13
+	compBudget = 7
 )
 
 // Shapes Gen never produces because vuego's behaviour there is unspecified or a known open
@@ -507,7 +507,7 @@ func (g *gstate) inc(sc gscope) (Node, []string) {
 		}
 	}
 	// collision: the prop has the name of the loop variable it is bound to (:item="item")
-	if k := len(sc.loopVars); k > 0 && sc.ok(sc.loopVars[k-1]) && g.pct(40) {
+	if k := len(sc.loopVars); k > 0 && sc.ok(sc.loopVars[k-1]) && g.pct(30) {
 		lv := sc.loopVars[k-1]
 		addProp(Attr{Mode: "bind", Name: lv, Path: lv})
 		bound = append(bound, lv)
@@ -629,7 +629,7 @@ func (g *gstate) slotItem(sc gscope) ([]Node, []string) {
 			}
 			n.SProps = append(n.SProps, KV{K: p, V: src})
 		}
-		if g.pct(50) {
+		if sc.depth < MaxDepth-1 && g.left > 0 && g.pct(50) {
 			fsc := sc.deeper()
 			fsc.pending = nil
 			n.Kids = []Node{g.probe(fsc, nil)}
@@ -638,6 +638,8 @@ func (g *gstate) slotItem(sc gscope) ([]Node, []string) {
 	}
 	lists := filter(sc.lists, sc.ok)
 	switch {
+	case g.left <= 1:
+		// over budget: place the bare slot
 	case len(sc.loopVars) == 0 && len(lists) > 0 && sc.depth < MaxDepth-1 && g.pct(40):
 		f, sc2 := g.newFor(sc)
 		g.left--
